@@ -264,6 +264,9 @@ func (w *watchers) handlersIngress() []*hdlr {
 		{
 			typ: &networking.IngressClass{},
 			res: types.ResourceIngressClass,
+			// an ingress that becomes valid due to an IngressClass change
+			// isn't tracked yet, so all the ingresses need to be read again
+			full: true,
 			pr: []predicate.Predicate{
 				predicate.GenerationChangedPredicate{},
 				predicate.Funcs{
